@@ -184,47 +184,70 @@ example :
          (2, 1, .bool true, 8, 8), (1, 2, .found ⟨1, .good 1⟩, 10, 12), (0, 1, .found ⟨2, .bad 2⟩, 9, 13),
          (0, 2, .ok, 14, 16), (2, 2, .found ⟨3, .none⟩, 17, 17)] := by decide
 
+/-- `NoEmbOverlap` (stated along the schedule) means what its name says on the history: in such a
+    run any two completed operations on one `emb:` key are disjoint in time — one returned (its
+    last step) before the other was invoked (its first step).  (The schedule form also covers the
+    operations still in progress when the schedule ends, which the history does not show.) -/
+theorem no_emb_overlap_disjoint_in_history (progs : List ThreadProgram) (sched : List Nat)
+    (h : ∀ p ∈ progs, ∀ op ∈ p, op.nonDurable = true)
+    (hx : NoEmbOverlap false progs sched = true) :
+    ∀ a ∈ (runSched false progs sched).hist, ∀ b ∈ (runSched false progs sched).hist, a ≠ b →
+      ∀ k, a.op.key? = some k → b.op.key? = some k → k.cls = .emb → a.ret < b.inv ∨ b.ret < a.inv := by
+  have ho : OInv (runSched false progs sched) :=
+    (EInv.init progs h).run_overlap ⟨by intro a ha; simp [initSys] at ha, by simp [initSys]⟩ sched hx
+  intro a ha b hb hne k hak hbk he
+  rcases pairwise_or ho.disjoint ha hb hne with h1 | h1
+  · exact Or.inl (h1 k hak hbk he)
+  · exact Or.inr (h1 k hbk hak he)
+
 /-- the hypothesis is what separates the two: the schedule of `emb_mixture_witness` violates it -/
 example : NoEmbOverlap false embMixtureProgs embMixtureSched = false := by decide
 
 /-! ### durable writes: logged and applied under the log mutex -/
 
-/-- THE STATEMENT, over a step machine `run`: for durable writers, once every thread has finished,
+/-- THE STATEMENT, over a step machine `run`: for durable writers (`Op.simpleDurable`), once every thread has finished,
     the store recovered from the log shows every key (get, exists, membership in scan) exactly as
     the in-memory store does. -/
 def DurableOrderEqMemoryOrder (run : Bool → List ThreadProgram → List Nat → Sys) : Prop :=
   ∀ (progs : List ThreadProgram) (sched : List Nat),
-    (∀ p ∈ progs, ∀ op ∈ p, op.simpleDurablePut = true) →
+    (∀ p ∈ progs, ∀ op ∈ p, op.simpleDurable = true) →
     quiescent (run true progs sched) = true →
     ∀ k, view (recover (run true progs sched).store.wal) k = view (run true progs sched).store k
 
 /-- FULL STRENGTH for the current code (repo dfea2ecb: the log mutex is held from the log step to
     the end of the in-memory apply; `runSched` = the interleaving in which a thread about to log
-    while another holds the mutex does not move).  For every number of durable writers of ANY,
-    also the same, plain / graph / table keys (vector-free values) and every interleaving: once
-    every thread has finished, the store recovered from the log shows every key exactly as memory
-    does — in every reachable state at most one thread is between its log step and its apply, and
-    the replayed log equals memory on every key but that thread's (`LInv`). -/
+    while another holds the mutex does not move).  For every number of durable writers —
+    `put_durable` of vector-free values and `delete_durable` — of ANY, also the same, plain / graph /
+    table keys and every interleaving: once every thread has finished, the store recovered from
+    the log shows every key exactly as memory does.  In every reachable state at most one thread is
+    between its log step and its apply, and the replayed log equals memory on every key but that
+    thread's, where it already holds the logged effect (`LInv`). -/
 theorem durable_order_eq_memory_order : DurableOrderEqMemoryOrder runSched := by
   intro progs sched h hq
   have inv : LInv (runSched true progs sched) := (LInv.init progs h).run sched
   intro k
-  refine view_of_shape (recover _) _ k inv.rshape inv.shape (inv.idle k ?_)
-  intro i th v hi hp
-  have hmem := List.mem_of_getElem? hi
-  simp only [quiescent, List.all_eq_true, List.isEmpty_iff] at hq
-  obtain ⟨_, rest, hr⟩ := hp
-  rw [hq th hmem] at hr
-  cases hr
+  exact view_of_shape (recover _) _ k inv.rshape inv.shape (inv.quiescent_agree hq k)
 
 /-- non-vacuity: the two contended writers of the witness; under the mutex the schedule
     A-log, B-log(blocked), B(blocked), A-apply, B-log, B-apply finishes with log order = apply order -/
 example :
-    (∀ p ∈ durableOrderProgs, ∀ op ∈ p, op.simpleDurablePut = true) ∧
+    (∀ p ∈ durableOrderProgs, ∀ op ∈ p, op.simpleDurable = true) ∧
     quiescent (runSched true durableOrderProgs [0, 1, 1, 0, 1, 1]) = true ∧
     (runSched true durableOrderProgs [0, 1, 1, 0, 1, 1]).store.wal
       = [.metaSet kP1 ⟨1, .none⟩, .metaSet kP1 ⟨2, .none⟩] ∧
     (runSched true durableOrderProgs [0, 1, 1, 0, 1, 1]).store.md = [(kP1, ⟨2, .none⟩)] := by decide
+
+/-- non-vacuity with a `delete_durable`: A puts and deletes `user:1`, B puts it; B is granted while A
+    is between the log step and the apply of its delete and does not move -/
+example :
+    (∀ p ∈ ([[.putD kP1 ⟨1, .none⟩, .delD kP1], [.putD kP1 ⟨2, .none⟩]] : List ThreadProgram),
+      ∀ op ∈ p, op.simpleDurable = true) ∧
+    quiescent (runSched true [[.putD kP1 ⟨1, .none⟩, .delD kP1], [.putD kP1 ⟨2, .none⟩]]
+      [0, 0, 0, 1, 1, 0, 1, 1]) = true ∧
+    (runSched true [[.putD kP1 ⟨1, .none⟩, .delD kP1], [.putD kP1 ⟨2, .none⟩]]
+      [0, 0, 0, 1, 1, 0, 1, 1]).store.wal = [.metaSet kP1 ⟨1, .none⟩, .metaDel kP1, .metaSet kP1 ⟨2, .none⟩] ∧
+    (runSched true [[.putD kP1 ⟨1, .none⟩, .delD kP1], [.putD kP1 ⟨2, .none⟩]]
+      [0, 0, 0, 1, 1, 0, 1, 1]).store.md = [(kP1, ⟨2, .none⟩)] := by decide
 
 /-- THE CODE BEFORE dfea2ecb (`runSchedOld`: the mutex covered the log step only) did not have the
     property: A logs, B logs, B applies, A applies — the log ends with B's record, memory with A's
